@@ -334,8 +334,8 @@ impl Check for C13 {
     fn parts(&self, tier: Tier) -> Vec<Part> {
         vec![
             Part { name: "enum", kind: PartKind::Enum { units: 256 } },
-            Part { name: "long", kind: PartKind::Random { cases: tier.pick(60_000, 1_000_000), main: 200, ops: 0, oplen: 0, sched: 0 } },
-            Part { name: "pairs", kind: PartKind::Random { cases: tier.pick(20_000, 200_000), main: 60, ops: 0, oplen: 0, sched: 20 } },
+            Part { name: "long", kind: PartKind::Random { cases: tier.pick(600_000, 6_000_000), main: 200, ops: 0, oplen: 0, sched: 0 } },
+            Part { name: "pairs", kind: PartKind::Random { cases: tier.pick(120_000, 1_200_000), main: 60, ops: 0, oplen: 0, sched: 20 } },
         ]
     }
     fn run_unit(&mut self, _part: &str, u: u64, env: &mut Env) -> CaseOut {
